@@ -4,8 +4,6 @@ From PV Require Import lib.Sx lib.Str lib.Result model.Geometry spec.SpecGeom pr
 Import ListNotations.
 Open Scope Z_scope.
 
-Definition ends_in_newline (s : str) : Prop := exists r, s = r ++ [10].
-
 (* ---- units ------------------------------------------------------------------------------------- *)
 Lemma unit_of_suffix_iff : forall r u, unit_of_suffix r = Some u <-> r = unit_str u.
 Proof.
@@ -42,12 +40,6 @@ Lemma last_snoc : forall (r : str) c, last (r ++ [c]) 0 = c.
 Proof.
   induction r as [|x r IH]; intros c; [reflexivity|]. cbn [app]. specialize (IH c).
   destruct (r ++ [c]) eqn:E; [destruct r; discriminate|]. exact IH.
-Qed.
-
-Lemma unit_not_newline : forall x u, ~ ends_in_newline (x ++ unit_str u).
-Proof.
-  intros x u [r Hr]. assert (Hl : last (x ++ unit_str u) 0 = 10) by (rewrite Hr; apply last_snoc).
-  rewrite last_app_unit in Hl. destruct u; cbn in Hl; discriminate.
 Qed.
 
 (* the last character determines the unit *)
@@ -261,44 +253,20 @@ Proof.
   - f_equal. eapply parse_core_err; eauto.
 Qed.
 
-(* Size.from_string itself: Python's `$` also matches before one final newline.  For strings that do not end
-   in a newline (in particular every string over the statement's alphabet) the function IS the core. *)
-
-Lemma chop_no_newline : forall s, ~ ends_in_newline s -> chop_final_newline s = s.
-Proof.
-  intros s H. unfold chop_final_newline. destruct (rev s) as [|c r] eqn:E; [reflexivity|].
-  destruct (c =? 10) eqn:Ec.
-  - exfalso. apply H. exists (rev r). assert (c = 10) by lia. subst c.
-    rewrite <- (rev_involutive s), E. reflexivity.
-  - destruct c; try reflexivity. repeat (destruct p; try reflexivity). cbn in Ec. discriminate.
-Qed.
-
-Lemma chop_newline : forall r, chop_final_newline (r ++ [10]) = r.
-Proof. intros r. unfold chop_final_newline. rewrite rev_app_distr. cbn. apply rev_involutive. Qed.
-
-Theorem from_string_language : forall s, ~ ends_in_newline s ->
-  ((exists z, size_from_string s = Ok z) <-> size_lang s) /\ (~ size_lang s -> size_from_string s = Err ESyntax).
-Proof.
-  intros s H. unfold size_from_string. rewrite (chop_no_newline _ H).
-  split; [apply parse_core_language|apply parse_rejects_with_syntax_error].
-Qed.
-
-(* for all strings, without exception: *)
-Theorem from_string_language_all : forall s,
-  ((exists z, size_from_string s = Ok z) <-> size_lang (chop_final_newline s))
+(* Size.from_string itself (after the two `fix:` commits the function is the pattern): for ALL strings *)
+Theorem from_string_language : forall s,
+  ((exists z, size_from_string s = Ok z) <-> size_lang s) /\ (~ size_lang s -> size_from_string s = Err ESyntax)
   /\ (forall e, size_from_string s = Err e -> e = ESyntax).
 Proof.
-  intros s. unfold size_from_string. split; [apply parse_core_language|apply parse_core_err].
+  intros s. unfold size_from_string.
+  split; [apply parse_core_language|split; [apply parse_rejects_with_syntax_error|apply parse_core_err]].
 Qed.
 
 Theorem from_string_value : forall ip fp u, all_digits ip = true -> (fp = [] \/ all_digits fp = true) ->
   let s := ip ++ (match fp with [] => [] | _ => 46 :: fp end) ++ unit_str u in
   exists v, size_from_string s = Ok (mkSize v u) /\ (v == denoted ip fp)%Q /\ (0 <= v)%Q.
 Proof.
-  intros ip fp u Hip Hfp s.
-  assert (Hn : ~ ends_in_newline s).
-  { subst s. rewrite app_assoc. apply unit_not_newline. }
-  unfold size_from_string. rewrite (chop_no_newline _ Hn). subst s.
+  intros ip fp u Hip Hfp s. unfold size_from_string. subst s.
   destruct Hfp as [->|Hfp].
   - cbn [app]. apply parse_core_int. exact Hip.
   - destruct fp as [|c fp]; [discriminate|].
